@@ -72,8 +72,8 @@ int main()
         ConnectionType ct = conn == 0 ? ConnectionType::OUTBOUND_FULL_RELAY : conn == 1 ? ConnectionType::INBOUND : conn == 2 ? ConnectionType::MANUAL : ConnectionType::BLOCK_RELAY;
         in_addr a{};
         ++addr_counter;
-        a.s_addr = local ? htonl(0x7f000001u) : htonl(0x50000000u + addr_counter);   // 127.0.0.1 or 80.x.y.z
-        CService svc(a, local ? (uint16_t)(10000 + addr_counter % 50000) : (uint16_t)8333);
+        a.s_addr = local ? htonl(0x7f000001u + addr_counter) : htonl(0x50000000u + addr_counter);   // 127.x.y.z (a different local address per case: discouragement is per address) or 80.x.y.z
+        CService svc(a, 8333);
         int peer = H.add_peer(ct, noban ? NetPermissionFlags::NoBan : NetPermissionFlags::None, svc, /*relay_txs=*/true);
         CNode& node = *H.nodes.at(peer);
         if (node.fDisconnect) return "BADCASE handshake failed";
